@@ -70,6 +70,12 @@ func genReuse(t *rapid.T) ReuseCase {
 	return c
 }
 
+// scribbleAfter appends to a decoded byte string, discarding the result: harmless unless the slice has
+// spare capacity that belongs to somebody else.
+func scribbleAfter(b []byte) {
+	_ = append(b, 0xA5, 0xA5, 0xA5, 0xA5, 0xA5, 0xA5, 0xA5, 0xA5, 0xA5, 0xA5, 0xA5, 0xA5)
+}
+
 func (s ReuseStep) bytes(kind string) ([]byte, error) {
 	var b []byte
 	var err error
@@ -120,6 +126,9 @@ func checkReuse(t *testing.T, c ReuseCase) (v harness.Verdict) {
 			v.Discard = true
 			return v
 		}
+		// the decoder reads from a buffer of its own that is scribbled over afterwards; the reference reads `in`
+		buf := clone(in)
+		poke := func() {}
 		var rest []byte
 		var derr, werr error
 		var wrest []byte
@@ -130,10 +139,21 @@ func checkReuse(t *testing.T, c ReuseCase) (v harness.Verdict) {
 			if prevType >= 0 && prevType != int(s.Leaf.Entry.Type) && s.Cut == 0 {
 				v.Class("leaf:entry-type-changes")
 			}
-			rest, derr = cttls.Unmarshal(in, &leaf)
+			rest, derr = cttls.Unmarshal(buf, &leaf)
 			var want rfc6962.Leaf
 			want, wrest, werr = rfc6962.DecodeLeaf(in)
 			val = leaf
+			poke = func() {
+				if te := leaf.TimestampedEntry; te != nil {
+					if te.X509Entry != nil {
+						scribbleAfter(te.X509Entry.Data)
+					}
+					if te.PrecertEntry != nil {
+						scribbleAfter(te.PrecertEntry.TBSCertificate)
+					}
+					scribbleAfter(te.Extensions)
+				}
+			}
 			same = func() string {
 				got, why := refFromRepoLeaf(leaf)
 				if why != "" {
@@ -148,10 +168,11 @@ func checkReuse(t *testing.T, c ReuseCase) (v harness.Verdict) {
 				prevType = int(s.Leaf.Entry.Type)
 			}
 		case "sct":
-			rest, derr = cttls.Unmarshal(in, &sct)
+			rest, derr = cttls.Unmarshal(buf, &sct)
 			var want rfc6962.SCT
 			want, wrest, werr = rfc6962.DecodeSCT(in)
 			val = sct
+			poke = func() { scribbleAfter(sct.Extensions); scribbleAfter(sct.Signature.Signature) }
 			same = func() string {
 				if !eqSCT(refFromRepoSCT(sct), want) {
 					return "different SCT"
@@ -159,10 +180,11 @@ func checkReuse(t *testing.T, c ReuseCase) (v harness.Verdict) {
 				return ""
 			}
 		case "ds":
-			rest, derr = cttls.Unmarshal(in, &ds)
+			rest, derr = cttls.Unmarshal(buf, &ds)
 			var want rfc6962.DigitallySigned
 			want, wrest, werr = rfc6962.DecodeDS(in)
 			val = ds
+			poke = func() { scribbleAfter(ds.Signature) }
 			same = func() string {
 				if !eqDS(refFromRepoDS(ds), want) {
 					return "different DigitallySigned"
@@ -170,10 +192,15 @@ func checkReuse(t *testing.T, c ReuseCase) (v harness.Verdict) {
 				return ""
 			}
 		case "chain":
-			rest, derr = cttls.Unmarshal(in, &chain)
+			rest, derr = cttls.Unmarshal(buf, &chain)
 			var want [][]byte
 			want, wrest, werr = rfc6962.DecodeChain(in)
 			val = chain
+			poke = func() {
+				for _, e := range chain.Entries {
+					scribbleAfter(e.Data)
+				}
+			}
 			same = func() string {
 				if !eqList(certsData(chain.Entries), want) {
 					return fmt.Sprintf("%d entries, want %d", len(chain.Entries), len(want))
@@ -181,11 +208,17 @@ func checkReuse(t *testing.T, c ReuseCase) (v harness.Verdict) {
 				return ""
 			}
 		case "prechain":
-			rest, derr = cttls.Unmarshal(in, &pre)
+			rest, derr = cttls.Unmarshal(buf, &pre)
 			var wp []byte
 			var wc [][]byte
 			wp, wc, wrest, werr = rfc6962.DecodePrecertChainEntry(in)
 			val = pre
+			poke = func() {
+				scribbleAfter(pre.PreCertificate.Data)
+				for _, e := range pre.CertificateChain {
+					scribbleAfter(e.Data)
+				}
+			}
 			same = func() string {
 				if !eqBytes(pre.PreCertificate.Data, wp) || !eqList(certsData(pre.CertificateChain), wc) {
 					return "different PrecertChainEntry"
@@ -193,7 +226,7 @@ func checkReuse(t *testing.T, c ReuseCase) (v harness.Verdict) {
 				return ""
 			}
 		case "sctlist":
-			rest, derr = cttls.Unmarshal(in, &list)
+			rest, derr = cttls.Unmarshal(buf, &list)
 			var want [][]byte
 			body := len(in)
 			if len(in) >= 2 {
@@ -206,6 +239,11 @@ func checkReuse(t *testing.T, c ReuseCase) (v harness.Verdict) {
 				wrest = in[body:]
 			}
 			val = list
+			poke = func() {
+				for _, e := range list.SCTList {
+					scribbleAfter(e.Val)
+				}
+			}
 			same = func() string {
 				got := make([][]byte, len(list.SCTList))
 				for j, it := range list.SCTList {
@@ -236,6 +274,15 @@ func checkReuse(t *testing.T, c ReuseCase) (v harness.Verdict) {
 			v.Failf("reuse-value:"+c.Struct, "step %d of %d: decoding %x... (%d bytes) into a %s that held the previous result does not give what the bytes denote: %s (rest %d, want %d)", i+1, len(c.Steps), head(in, 32), len(in), c.Struct, why, len(rest), len(wrest))
 			return v
 		}
+		// what a caller may do next: append to the byte strings it was given, and re-use its read buffer
+		poke()
+		for j := range buf {
+			buf[j] ^= 0x5A
+		}
+		if why := same(); why != "" {
+			v.Failf("reuse-aliases-input:"+c.Struct, "step %d of %d: after appending to the decoded byte strings and overwriting the input buffer, the decoded %s no longer equals what the bytes denoted: %s", i+1, len(c.Steps), c.Struct, why)
+			return v
+		}
 		consumed := in[:len(in)-len(rest)]
 		back, merr := cttls.Marshal(val)
 		if merr != nil || !bytes.Equal(back, consumed) {
@@ -249,6 +296,6 @@ func checkReuse(t *testing.T, c ReuseCase) (v harness.Verdict) {
 // Reuse is the decode-into-a-re-used-destination part of C04.
 var Reuse = harness.Define(harness.Opts{
 	Name:  "reuse",
-	Rule:  "2-4 reference encodings of one structure (MerkleTreeLeaf with independently drawn entry types, SCT, DigitallySigned, certificate chain, PrecertChainEntry, SCT list; sizes as in decode; one step in six truncated so that a failing decode sits in between; a quarter with trailing bytes) decoded one after the other with tls.Unmarshal into the SAME variable; after every step the variable must equal what the reference decoder reads from those bytes (variant pointers included), the rest must match, and tls.Marshal of the variable must give the consumed input back. Every case is non-trivial",
+	Rule:  "2-4 reference encodings of one structure (MerkleTreeLeaf with independently drawn entry types, SCT, DigitallySigned, certificate chain, PrecertChainEntry, SCT list; sizes as in decode; one step in six truncated so that a failing decode sits in between; a quarter with trailing bytes) decoded one after the other with tls.Unmarshal into the SAME variable; the decoder reads from a private copy of the input; after every step twelve bytes are appended (result discarded) to every decoded byte string and the input buffer is overwritten, then the variable must equal what the reference decoder reads from the pristine bytes (variant pointers included), the rest must match in length, and tls.Marshal of the variable must give the consumed input back. Every case is non-trivial",
 	Quick: 2000, Thorough: 20000, MaxSample: 700,
 }, genReuse, checkReuse)
